@@ -51,7 +51,7 @@ package inmem
 //@
 //@ pred ringShape(c *ResourceCollection) := c.cap0 >= 1 && 0 <= c.gap && c.gap <= c.cap0 && c.capacity >= c.cap0 &&
 //@   len(c.stream) == c.capacity && c.writePos >= 0 && (c.writePos <= c.capacity || c.capacity >= c.maxCapacity) && c.c != nil
-//@ pred ringWindow(c *ResourceCollection) := forall p int64 {p % c.capacity} :: 0 <= p && c.writePos - c.capacity <= p && p < c.writePos ==>
+//@ pred ringWindow(c *ResourceCollection) := forall p int64 :: 0 <= p && c.writePos - c.capacity <= p && p < c.writePos ==>
 //@   c.stream[p % c.capacity] == c.log[p]
 //@ pred isCUD(t state.EventType) := t == state.Created || t == state.Updated || t == state.Destroyed
 //@ pred eventWF(e state.Event, p int64) := e.Resource != nil && isBookmarkOf(e.Bookmark, p) && isCUD(e.Type) &&
@@ -344,7 +344,7 @@ package inmem
 //@     assert [lap-index; using -] forall i int64 :: 0 <= i && i < pos - acq(pos) ==>
 //@       (acq(pos) + i) % collection.capacity == ite(first < last || i < collection.capacity - first, first + i, i - (collection.capacity - first))
 //@     assert [window-len; using -] len(events) == pos - acq(pos)
-//@     assert [window-copy] forall i int64 :: 0 <= i && i < pos - acq(pos) ==>
+//@     assert [window-copy; using -] forall i int64 :: 0 <= i && i < pos - acq(pos) ==>
 //@       events[i] == collection.stream[ite(first < last || i < collection.capacity - first, first + i, i - (collection.capacity - first))]
 //   (the composition window-copy + lap-index + ring invariant ==> events[i] == log[acq(pos)+i] is not discharged by the
 //   installed solvers within the time limit; it is the one cited step of this function)
